@@ -171,6 +171,16 @@ def c11_gen_text():
         return vals[0]
     package_exprs = [assigned(find_function("gapic/cli/generate.py", "generate"), "package"),
                      assigned(find_function("gapic/schema/naming.py", "Naming.build"), "root_package")]
+    # utils.empty (one return expression) and the drop test of Generator._get_file (Model/Empty.v)
+    emp = find_function("gapic/utils/code.py", "empty")
+    emp_body = [n for n in emp.body if not (isinstance(n, ast.Expr) and isinstance(n.value, ast.Constant))]
+    if len(emp_body) != 1 or not isinstance(emp_body[0], ast.Return):
+        raise ExtractError("utils.code.empty: expected a single return statement")
+    empty_src = ast.unparse(emp_body[0].value)
+    gf = find_function(G, "Generator._get_file")
+    drop_tests = [ast.unparse(n.test) for n in ast.walk(gf) if isinstance(n, ast.If)]
+    content_exprs = [ast.unparse(k.value.func) for n in ast.walk(gf) if isinstance(n, ast.Call) for k in n.keywords
+                     if k.arg == "content" and isinstance(k.value, ast.Call)]
     sample_name = module_assign("gapic/samplegen/samplegen.py", "DEFAULT_TEMPLATE_NAME")
     flags = sorted(module_assign("gapic/utils/options.py", "OPT_FLAGS", "Options"))
     prefix = module_assign("gapic/utils/options.py", "PYTHON_GAPIC_PREFIX", "Options")
@@ -189,7 +199,10 @@ def c11_gen_text():
              f"Definition sanitize_tests : list string := {coq.slist(sanitize_tests)}.",
              f"Definition file_to_generate_exprs : list string := {coq.slist(ftg)}.",
              f"Definition in_package_src : string := {coq.s(in_package_src)}.",
-             f"Definition subpackage_elts : list string := {coq.slist(subp_elts)}."]
+             f"Definition subpackage_elts : list string := {coq.slist(subp_elts)}.",
+             f"Definition empty_src : string := {coq.s(empty_src)}.",
+             f"Definition get_file_tests : list string := {coq.slist(drop_tests)}.",
+             f"Definition get_file_content_fns : list string := {coq.slist(content_exprs)}."]
     for k, v in consts.items():
         lines.append(f"Definition {k} : list string := {coq.slist(v)}.")
     return "\n".join(lines) + "\n"
